@@ -1,5 +1,5 @@
 (** C08 - Cancel is final: canceled tasks never run or report again. *)
-From HQ Require Import Base.Prelude Cluster.Types Cluster.Core Cluster.Reactor Cluster.Worker Cluster.Server Cluster.Sys Cluster.Monitors Cluster.ProofsJob Cluster.ProofsCore Cluster.ProofsMore Cluster.ProofsTerminal.
+From HQ Require Import Base.Prelude Cluster.Types Cluster.Core Cluster.Reactor Cluster.Worker Cluster.Server Cluster.Sys Cluster.Monitors Cluster.ProofsJob Cluster.ProofsCore Cluster.ProofsMore Cluster.ProofsTerminal Cluster.ProofsStep Cluster.ProofsAll.
 From Coq Require Import ZArith.
 Local Open Scope N_scope.
 
@@ -31,6 +31,13 @@ Theorem C08_terminal_tasks_keep_outcome : forall s o s' t v,
   task_state s' t = Some v \/ find_job (h_jobs (hq_of s')) (fst t) = None.
 Proof. exact jstep_outcome_final. Qed.
 
+(** A cancel that is answered leaves no task of the job without outcome. *)
+Theorem C08_cancel_leaves_none : forall s jid j s',
+  HOK (hq_of s) -> find_job (hq_jobs s) jid = Some j -> handle_cancel s jid = Ok s' ->
+  exists j', find_job (h_jobs (hq_of s')) jid = Some j' /\ cnt (j_tasks j') JW + cnt (j_tasks j') JR = 0.
+Proof. exact cancel_leaves_none. Qed.
+
+Print Assumptions C08_cancel_leaves_none.
 Print Assumptions C08_terminal_tasks_keep_outcome.
 Print Assumptions C08_cancel_idempotent.
 Print Assumptions C08_only_active_tasks_canceled.
